@@ -68,4 +68,33 @@ func factsState(p *pkg, o *out) {
 	}
 	sort.Strings(disc)
 	o.strListDef("trackerLockDiscipline", disc, true)
+	// what every exported tracker method returns (as source text), method by method
+	var rets []string
+	seen := map[string]bool{}
+	for _, fd := range p.allFuncs() {
+		if fd.Recv == nil || fd.Body == nil || !ast.IsExported(fd.Name.Name) {
+			continue
+		}
+		t := fd.Recv.List[0].Type
+		if se, ok := t.(*ast.StarExpr); ok {
+			t = se.X
+		}
+		if id, ok := t.(*ast.Ident); !ok || id.Name != "stateTracker" {
+			continue
+		}
+		ast.Inspect(fd.Body, func(n ast.Node) bool {
+			if rs, ok := n.(*ast.ReturnStmt); ok {
+				for _, r := range rs.Results {
+					k := fd.Name.Name + ":" + p.show(r)
+					if !seen[k] {
+						seen[k] = true
+						rets = append(rets, k)
+					}
+				}
+			}
+			return true
+		})
+	}
+	sort.Strings(rets)
+	o.strListDef("trackerReturns", rets, true)
 }
